@@ -16,14 +16,13 @@ package main
 // (context-insensitive) and over the roots given to Run.
 
 import (
+	"fmt"
 	"go/constant"
 	"go/token"
 	"go/types"
 
 	"golang.org/x/tools/go/ssa"
 )
-
-const c05L = 9 // 3^2 local truth assignments
 
 type c05Exit struct{ g, rt int }
 
@@ -45,6 +44,11 @@ type c05Flow struct {
 	Fresh int
 	// NoDefaultRoots: only the roots given to Run start the propagation.
 	NoDefaultRoots bool
+	// K: number of tracked booleans per function (1 or 2, default 2); G*3^K <= 64.
+	K int
+	// EdgeG: effect of taking the CFG edge from->to on g (e.g. an assignment
+	// expressed by a phi edge). Optional.
+	EdgeG func(from, to *ssa.BasicBlock, g int) int
 
 	funcs   map[*ssa.Function]bool
 	sum     map[*ssa.Function]map[int][]c05Exit
@@ -53,8 +57,65 @@ type c05Flow struct {
 	at      map[ssa.Instruction]uint64
 	atRepl  map[ssa.Instruction]uint64 // state when a deferred call is replayed
 	tracked map[*ssa.Function][]ssa.Value
+	sumB    map[string][]c05Exit
+	activeB map[string]bool
 	// Imprecise: functions with more tracked booleans than the engine can follow.
 	Imprecise map[*ssa.Function]bool
+}
+
+// kmax: number of tracked booleans per function: K if set, else the largest
+// k <= 3 with G*3^k <= 64.
+func (f *c05Flow) kmax() int {
+	if f.K > 0 {
+		return f.K
+	}
+	k, l := 0, 1
+	for k < 3 && f.G*l*3 <= 64 {
+		k++
+		l *= 3
+	}
+	return k
+}
+
+// L: number of local truth assignments (3^kmax).
+func (f *c05Flow) L() int {
+	l := 1
+	for i := 0; i < f.kmax(); i++ {
+		l *= 3
+	}
+	return l
+}
+
+// c05CanonBool: a boolean phi all of whose incoming values (other than itself)
+// are one and the same value is that value (the copy of a flag a loop header
+// makes for a path that does not change it).
+func c05CanonBool(v ssa.Value) ssa.Value {
+	for i := 0; i < 6; i++ {
+		p, ok := v.(*ssa.Phi)
+		if !ok {
+			return v
+		}
+		var only ssa.Value
+		same := true
+		for _, ed := range p.Edges {
+			if ed == ssa.Value(p) {
+				continue
+			}
+			if only == nil {
+				only = ed
+			} else if only != ed {
+				same = false
+			}
+		}
+		if !same || only == nil {
+			return v
+		}
+		if _, isPhi := only.(*ssa.Phi); !isPhi {
+			return v
+		}
+		v = only
+	}
+	return v
 }
 
 func (f *c05Flow) init() {
@@ -90,6 +151,13 @@ func c05CondValue(cond ssa.Value) (ssa.Value, bool) {
 				if _, isC := v.(*ssa.Const); isC {
 					v, k = k, v
 				}
+				if kc, ok := k.(*ssa.Const); ok && kc.IsNil() {
+					// X != nil: the tracked fact is "X is non-nil"
+					if x.Op == token.EQL {
+						pol = !pol
+					}
+					return v, pol
+				}
 				if kc, ok := k.(*ssa.Const); ok && kc.Value != nil && kc.Value.Kind() == constant.Bool {
 					same := constant.BoolVal(kc.Value)
 					if x.Op == token.NEQ {
@@ -117,6 +185,7 @@ func (f *c05Flow) trackedOf(fn *ssa.Function) []ssa.Value {
 	// only booleans that actually decide a branch or are returned
 	consider := func(v ssa.Value) {
 		v, _ = c05CondValue(v)
+		v = c05CanonBool(v)
 		if seen[v] || f.Tracked == nil || !f.Tracked(v) {
 			return
 		}
@@ -127,6 +196,9 @@ func (f *c05Flow) trackedOf(fn *ssa.Function) []ssa.Value {
 		switch x := in.(type) {
 		case *ssa.If:
 			consider(x.Cond)
+			for _, at := range c05ExpandCond(x.Cond, true, 0) {
+				consider(at.v)
+			}
 		case *ssa.Return:
 			if len(x.Results) == 1 {
 				if b, ok := x.Results[0].Type().Underlying().(*types.Basic); ok && b.Kind() == types.Bool {
@@ -135,33 +207,83 @@ func (f *c05Flow) trackedOf(fn *ssa.Function) []ssa.Value {
 			}
 		}
 	})
-	if len(out) > 2 {
+	// a tracked phi gets its truth from its operands: the boolean phis feeding it
+	// have to be tracked as well
+	for i := 0; i < len(out); i++ {
+		if p, ok := out[i].(*ssa.Phi); ok {
+			for _, ed := range p.Edges {
+				e, _ := c05CondValue(ed)
+				if _, isPhi := e.(*ssa.Phi); isPhi {
+					consider(e)
+				}
+			}
+		}
+	}
+	maxK := f.kmax()
+	// flag variables (phis fed only by constants and other flags) before
+	// expression phis (`a && b` used as a value), which the branch filter
+	// decomposes into their operands anyway
+	isFlag := func(v ssa.Value) bool {
+		p, ok := v.(*ssa.Phi)
+		if !ok {
+			return true
+		}
+		for _, ed := range p.Edges {
+			e, _ := c05CondValue(ed)
+			switch e.(type) {
+			case *ssa.Const, *ssa.Phi:
+			default:
+				return false
+			}
+		}
+		return true
+	}
+	var flags, exprs []ssa.Value
+	for _, v := range out {
+		if isFlag(v) {
+			flags = append(flags, v)
+		} else {
+			exprs = append(exprs, v)
+		}
+	}
+	if len(flags) <= maxK {
+		// expression phis beyond the budget are not a loss of precision
+		out = append(flags, exprs...)
+		if len(out) > maxK {
+			out = out[:maxK]
+		}
+	} else {
+		out = append(flags, exprs...)
+	}
+	if len(out) > maxK {
 		f.Imprecise[fn] = true
-		out = out[:2]
+		out = out[:maxK]
 	}
 	f.tracked[fn] = out
 	return out
 }
 
 func c05Digit(l, k int) int {
-	if k == 0 {
-		return l % 3
+	for i := 0; i < k; i++ {
+		l /= 3
 	}
-	return (l / 3) % 3
+	return l % 3
 }
 
 func c05SetDigit(l, k, d int) int {
-	if k == 0 {
-		return l - l%3 + d
+	p := 1
+	for i := 0; i < k; i++ {
+		p *= 3
 	}
-	return l%3 + 3*d
+	return l - ((l/p)%3)*p + d*p
 }
 
 // runFn runs the intraprocedural flow of fn from the given entry global states.
 // record: store per-instruction states and propagate entries to callees.
-func (f *c05Flow) runFn(fn *ssa.Function, entryG uint64, record bool, contrib func(h *ssa.Function, g int)) []c05Exit {
+func (f *c05Flow) runFn(fn *ssa.Function, entryG uint64, record bool, contrib func(h *ssa.Function, g int), bind map[*ssa.Parameter]*ssa.Function) []c05Exit {
 	tr := f.trackedOf(fn)
 	idx := func(v ssa.Value) int {
+		v = c05CanonBool(v)
 		for i, t := range tr {
 			if t == v {
 				return i
@@ -172,7 +294,7 @@ func (f *c05Flow) runFn(fn *ssa.Function, entryG uint64, record bool, contrib fu
 	var entry uint64
 	for g := 0; g < f.G; g++ {
 		if entryG&(1<<uint(g)) != 0 {
-			entry |= 1 << uint(g*c05L)
+			entry |= 1 << uint(g*f.L())
 		}
 	}
 	var ff *FlagFlow
@@ -187,13 +309,15 @@ func (f *c05Flow) runFn(fn *ssa.Function, entryG uint64, record bool, contrib fu
 			var out uint64
 			k := -1
 			if v, ok := in.(ssa.Value); ok {
-				k = idx(v)
+				if _, isPhi := in.(*ssa.Phi); !isPhi { // a phi's truth is assigned on the incoming edge
+					k = idx(v)
+				}
 			}
-			for s := 0; s < f.G*c05L; s++ {
+			for s := 0; s < f.G*f.L(); s++ {
 				if st&(1<<uint(s)) == 0 {
 					continue
 				}
-				g, l := s/c05L, s%c05L
+				g, l := s/f.L(), s%f.L()
 				if k >= 0 {
 					l = c05SetDigit(l, k, 0)
 				}
@@ -207,83 +331,189 @@ func (f *c05Flow) runFn(fn *ssa.Function, entryG uint64, record bool, contrib fu
 					// callbacks handed to synchronous higher-order library functions
 					// (sort.Slice, slices.SortFunc, ...) run during the call, in this state
 					if cbs := f.a.syncCallbacks(ci); len(cbs) > 0 {
-						acc := uint64(1) << uint(g2*c05L+l)
+						acc := uint64(1) << uint(g2*f.L()+l)
 						for _, cb := range cbs {
 							if contrib != nil {
 								contrib(cb, g2)
 							}
 							for _, ex := range f.summary(cb, g2) {
-								acc |= 1 << uint(ex.g*c05L+l)
+								acc |= 1 << uint(ex.g*f.L()+l)
 							}
 						}
 						out |= acc
 						continue
 					}
+					var targets []*ssa.Function
+					if h != nil {
+						if f.funcs[h] {
+							targets = []*ssa.Function{h}
+						}
+					} else if par, isPar := ci.Common().Value.(*ssa.Parameter); isPar && bind[par] != nil {
+						targets = []*ssa.Function{bind[par]} // the callback this call of the helper was given
+					} else {
+						for _, t := range f.a.dynTargets(ci) {
+							if f.funcs[t] {
+								targets = append(targets, t)
+							}
+						}
+					}
 					if goi, isGo := in.(*ssa.Go); isGo {
-						if h != nil && f.funcs[h] && contrib != nil {
+						for _, t := range targets {
+							if contrib == nil {
+								break
+							}
 							ge, ok := f.Fresh, false
-							if f.GoEntry != nil {
+							if f.GoEntry != nil && t == h {
 								ge, ok = f.GoEntry(goi, g)
 							}
 							if !ok {
 								ge = f.Fresh
 							}
-							contrib(h, ge)
+							contrib(t, ge)
 						}
-						out |= 1 << uint(g2*c05L+l)
+						out |= 1 << uint(g2*f.L()+l)
 						continue
 					}
-					if h != nil && f.funcs[h] {
-						if contrib != nil {
-							contrib(h, g2)
-						}
-						for _, ex := range f.summary(h, g2) {
-							l2 := l
-							if k >= 0 && ex.rt != 0 {
-								l2 = c05SetDigit(l2, k, ex.rt)
+					if len(targets) > 0 {
+						for _, t := range targets {
+							if contrib != nil {
+								contrib(t, g2)
 							}
-							out |= 1 << uint(ex.g*c05L+l2)
+							var exits []c05Exit
+							if b := f.a.callbackBinding(ci, t); len(b) > 0 {
+								exits = f.summaryBound(t, g2, b)
+							} else {
+								exits = f.summary(t, g2)
+							}
+							for _, ex := range exits {
+								l2 := l
+								if k >= 0 && ex.rt != 0 && len(targets) == 1 {
+									l2 = c05SetDigit(l2, k, ex.rt)
+								}
+								out |= 1 << uint(ex.g*f.L()+l2)
+							}
 						}
 						continue
 					}
 				}
-				out |= 1 << uint(g2*c05L+l)
+				out |= 1 << uint(g2*f.L()+l)
 			}
 			return out
 		},
 		EdgeTransfer: func(from, to *ssa.BasicBlock, st uint64) uint64 {
-			if len(from.Instrs) == 0 || len(from.Succs) != 2 || from.Succs[0] == from.Succs[1] {
-				return st
+			// (1) the branch taken at the end of `from`
+			if len(from.Instrs) > 0 && len(from.Succs) == 2 && from.Succs[0] != from.Succs[1] {
+				if ifi, ok := from.Instrs[len(from.Instrs)-1].(*ssa.If); ok {
+					atoms := append([]c05Atom{{ifi.Cond, from.Succs[0] == to}}, c05ExpandCond(ifi.Cond, from.Succs[0] == to, 0)...)
+					done := map[ssa.Value]bool{}
+					for _, at := range atoms {
+						v, pol := c05CondValue(at.v)
+						if done[v] {
+							continue
+						}
+						done[v] = true
+						k := idx(v)
+						if k < 0 {
+							continue
+						}
+						tv := at.tv == pol
+						want := 2
+						if tv {
+							want = 1
+						}
+						var out uint64
+						for s := 0; s < f.G*f.L(); s++ {
+							if st&(1<<uint(s)) == 0 {
+								continue
+							}
+							g, l := s/f.L(), s%f.L()
+							d := c05Digit(l, k)
+							if d != 0 && d != want {
+								continue // infeasible
+							}
+							l = c05SetDigit(l, k, want)
+							if f.Cond != nil {
+								g = f.Cond(ifi, v, tv, g)
+							}
+							out |= 1 << uint(g*f.L()+l)
+						}
+						st = out
+					}
+				}
 			}
-			ifi, ok := from.Instrs[len(from.Instrs)-1].(*ssa.If)
-			if !ok {
-				return st
+			// (2) assignments expressed by the edge: rule hook, then tracked phis of `to`
+			pi := -1
+			for i, p := range to.Preds {
+				if p == from {
+					pi = i
+				}
 			}
-			v, pol := c05CondValue(ifi.Cond)
-			k := idx(v)
-			if k < 0 {
-				return st
+			type asg struct {
+				k   int
+				src int // tracked index to copy from (-1: constant d)
+				neg bool
+				d   int
 			}
-			tv := (from.Succs[0] == to) == pol
-			want := 2
-			if tv {
-				want = 1
+			var asgs []asg
+			if pi >= 0 {
+				for _, in := range to.Instrs {
+					phi, ok := in.(*ssa.Phi)
+					if !ok {
+						break
+					}
+					if c05CanonBool(phi) != ssa.Value(phi) {
+						continue // an alias of another flag: no truth of its own
+					}
+					k := idx(phi)
+					if k < 0 || pi >= len(phi.Edges) {
+						continue
+					}
+					ed, pol := c05CondValue(phi.Edges[pi])
+					a1 := asg{k: k, src: -1}
+					switch x := ed.(type) {
+					case *ssa.Const:
+						switch {
+						case x.IsNil():
+							a1.d = 2
+						case x.Value != nil && x.Value.Kind() == constant.Bool:
+							if constant.BoolVal(x.Value) == pol {
+								a1.d = 1
+							} else {
+								a1.d = 2
+							}
+						}
+					default:
+						if sk := idx(ed); sk >= 0 {
+							a1.src, a1.neg = sk, !pol
+						}
+					}
+					asgs = append(asgs, a1)
+				}
+			}
+			if f.EdgeG == nil && len(asgs) == 0 {
+				return st
 			}
 			var out uint64
-			for s := 0; s < f.G*c05L; s++ {
+			for s := 0; s < f.G*f.L(); s++ {
 				if st&(1<<uint(s)) == 0 {
 					continue
 				}
-				g, l := s/c05L, s%c05L
-				d := c05Digit(l, k)
-				if d != 0 && d != want {
-					continue // infeasible
+				g, l := s/f.L(), s%f.L()
+				if f.EdgeG != nil {
+					g = f.EdgeG(from, to, g)
 				}
-				l = c05SetDigit(l, k, want)
-				if f.Cond != nil {
-					g = f.Cond(ifi, v, tv, g)
+				l2 := l
+				for _, a1 := range asgs {
+					d := a1.d
+					if a1.src >= 0 {
+						d = c05Digit(l, a1.src)
+						if d != 0 && a1.neg {
+							d = 3 - d
+						}
+					}
+					l2 = c05SetDigit(l2, a1.k, d)
 				}
-				out |= 1 << uint(g*c05L+l)
+				out |= 1 << uint(g*f.L()+l2)
 			}
 			return out
 		}}
@@ -298,11 +528,11 @@ func (f *c05Flow) runFn(fn *ssa.Function, entryG uint64, record bool, contrib fu
 	var exits []c05Exit
 	seen := map[c05Exit]bool{}
 	ff.AtReturns(func(ret *ssa.Return, st uint64) {
-		for s := 0; s < f.G*c05L; s++ {
+		for s := 0; s < f.G*f.L(); s++ {
 			if st&(1<<uint(s)) == 0 {
 				continue
 			}
-			g, l := s/c05L, s%c05L
+			g, l := s/f.L(), s%f.L()
 			emit := func(g, rt int) {
 				if f.Exit != nil {
 					g = f.Exit(fn, g)
@@ -363,7 +593,7 @@ func (f *c05Flow) summary(h *ssa.Function, g int) []c05Exit {
 		return []c05Exit{{g, 0}} // recursion / no body: identity
 	}
 	f.active[h][g] = true
-	ex := f.runFn(h, 1<<uint(g), false, nil)
+	ex := f.runFn(h, 1<<uint(g), false, nil, nil)
 	delete(f.active[h], g)
 	if f.sum[h] == nil {
 		f.sum[h] = map[int][]c05Exit{}
@@ -404,7 +634,7 @@ func (f *c05Flow) Run(roots map[*ssa.Function]int) {
 		work = work[1:]
 		// clear what was recorded for fn, then re-run with the full entry set
 		allInstrs(fn, func(in ssa.Instruction) { delete(f.at, in); delete(f.atRepl, in) })
-		f.runFn(fn, f.entry[fn], true, add)
+		f.runFn(fn, f.entry[fn], true, add, nil)
 	}
 }
 
@@ -415,10 +645,10 @@ func (f *c05Flow) At(in ssa.Instruction) uint64 { return f.at[in] }
 func (f *c05Flow) Globals(st uint64) []int {
 	var out []int
 	seen := map[int]bool{}
-	for s := 0; s < f.G*c05L; s++ {
-		if st&(1<<uint(s)) != 0 && !seen[s/c05L] {
-			seen[s/c05L] = true
-			out = append(out, s/c05L)
+	for s := 0; s < f.G*f.L(); s++ {
+		if st&(1<<uint(s)) != 0 && !seen[s/f.L()] {
+			seen[s/f.L()] = true
+			out = append(out, s/f.L())
 		}
 	}
 	return out
@@ -467,4 +697,32 @@ func c05ResolveLocal(v ssa.Value) ssa.Value {
 		}
 	}
 	return v
+}
+
+// summaryBound: exits of h entered in g when its callback parameters are bound
+// to specific functions (one call site of a helper such as withLock): the
+// helper is summarised per binding, so that callers sharing it do not see each
+// other's callbacks.
+func (f *c05Flow) summaryBound(h *ssa.Function, g int, bind map[*ssa.Parameter]*ssa.Function) []c05Exit {
+	key := fmt.Sprintf("%p|%d", h, g)
+	for _, pa := range h.Params {
+		if b := bind[pa]; b != nil {
+			key += fmt.Sprintf("|%p", b)
+		}
+	}
+	if f.sumB == nil {
+		f.sumB = map[string][]c05Exit{}
+		f.activeB = map[string]bool{}
+	}
+	if ex, ok := f.sumB[key]; ok {
+		return ex
+	}
+	if f.activeB[key] || len(h.Blocks) == 0 {
+		return []c05Exit{{g, 0}}
+	}
+	f.activeB[key] = true
+	ex := f.runFn(h, 1<<uint(g), false, nil, bind)
+	delete(f.activeB, key)
+	f.sumB[key] = ex
+	return ex
 }
